@@ -8,8 +8,8 @@ PATCH=$(readlink -f "$1"); PROP=$2; TIER=${3:-quick}
 LAB=/tmp/mutlab; mkdir -p $LAB/out
 exec 8>$LAB/.lock; flock 8
 if [ ! -d $LAB/repo ]; then git -C /repo worktree add -q --detach $LAB/repo HEAD || exit 2; fi
-git -C $LAB/repo checkout -q --detach $(git -C /repo rev-parse HEAD) 2>/dev/null
 git -C $LAB/repo checkout -q -- . ; git -C $LAB/repo clean -fdq -e target
+git -C $LAB/repo checkout -q --detach $(git -C /repo rev-parse HEAD) || exit 2
 if [ -n "$PATCH" ] && [ "$1" != "none" ]; then git -C $LAB/repo apply "$PATCH" || { echo "patch does not apply"; exit 2; }; fi
 rsync -a --delete --exclude .build --exclude .git --exclude replays --exclude 'coq/**/*.vo' --exclude 'coq/**/*.vos' --exclude 'coq/**/*.vok' --exclude 'coq/**/*.glob' --exclude 'coq/**/*.aux' --exclude 'coq/.mk.lock' --exclude 'coq/Makefile.coq*' --exclude 'coq/.Makefile.coq.d' /verif/ $LAB/verif/ 
 sed -i "s#path = \"/repo\"#path = \"$LAB/repo\"#" $LAB/verif/harness/rs/Cargo.toml
